@@ -241,15 +241,13 @@ fn responses(op: &Op) -> BTreeSet<Val> {
     all
 }
 
-/// Is `v` a response the operation can produce (decided directly, not by enumeration)?  Keys that the selection set can
-/// never produce for the object's concrete type are ignored: TypeScript object types are open, so no printed type can
-/// exclude them; keys it CAN produce (under some variable assignment) must be exactly those of the assignment.
+/// Is `v` in Ref_local of the operation (decided directly, not by enumeration)?  As the property states it, each
+/// selection set is considered on its own: some runtime object type and some values of the boolean variables - chosen
+/// per selection set, NOT one assignment for the whole response.  Keys that the selection set can never produce for the
+/// object's concrete type are ignored: TypeScript object types are open, so no printed type can exclude them; keys it
+/// CAN produce (under some variable assignment) must be exactly those of the assignment chosen for that selection set.
 fn conforms(op: &Op, v: &Val) -> bool {
-    let nv = op.vars.len();
-    (0..(1usize << nv)).any(|mask| {
-        let vars: BTreeMap<&str, bool> = op.vars.iter().enumerate().map(|(i, x)| (*x, mask & (1 << i) != 0)).collect();
-        conf_obj(op, v, "Query", &op.sel, &vars)
-    })
+    conf_obj(op, v, "Query", &op.sel)
 }
 fn key_universe(op: &Op, concrete: &str, sels: &[Sel]) -> BTreeSet<String> {
     let nv = op.vars.len();
@@ -262,38 +260,40 @@ fn key_universe(op: &Op, concrete: &str, sels: &[Sel]) -> BTreeSet<String> {
     }
     u
 }
-fn conf_obj(op: &Op, v: &Val, concrete: &'static str, sels: &[Sel], vars: &BTreeMap<&str, bool>) -> bool {
+fn conf_obj(op: &Op, v: &Val, concrete: &'static str, sels: &[Sel]) -> bool {
     let Val::Obj(o) = v else { return false };
-    let mut fields = vec![];
-    collect(op, concrete, sels, vars, &mut fields);
     let universe = key_universe(op, concrete, sels);
-    let expected: BTreeSet<String> = fields.iter().map(|(k, _, _)| k.clone()).collect();
     let present: BTreeSet<String> = o.keys().filter(|k| universe.contains(*k)).cloned().collect();
-    if expected != present {
-        return false;
-    }
-    fields.iter().all(|(key, name, sub)| {
-        let x = &o[key];
-        if *name == "__typename" {
-            *x == Val::Str(concrete.to_string())
-        } else {
-            conf_val(op, x, &field_type(concrete, name).unwrap(), sub, vars)
-        }
+    let nv = op.vars.len();
+    (0..(1usize << nv)).any(|mask| {
+        let vars: BTreeMap<&str, bool> = op.vars.iter().enumerate().map(|(i, x)| (*x, mask & (1 << i) != 0)).collect();
+        let mut fields = vec![];
+        collect(op, concrete, sels, &vars, &mut fields);
+        let expected: BTreeSet<String> = fields.iter().map(|(k, _, _)| k.clone()).collect();
+        expected == present
+            && fields.iter().all(|(key, name, sub)| {
+                let x = &o[key];
+                if *name == "__typename" {
+                    *x == Val::Str(concrete.to_string())
+                } else {
+                    conf_val(op, x, &field_type(concrete, name).unwrap(), sub)
+                }
+            })
     })
 }
-fn conf_val(op: &Op, v: &Val, t: &GTy, sub: &[Sel], vars: &BTreeMap<&str, bool>) -> bool {
+fn conf_val(op: &Op, v: &Val, t: &GTy, sub: &[Sel]) -> bool {
     match t {
-        GTy::NonNull(i) => *v != Val::Null && conf_val(op, v, i, sub, vars),
+        GTy::NonNull(i) => *v != Val::Null && conf_val(op, v, i, sub),
         GTy::List(i) => match v {
             Val::Null => true,
-            Val::List(xs) => xs.iter().all(|x| conf_val(op, x, i, sub, vars)),
+            Val::List(xs) => xs.iter().all(|x| conf_val(op, x, i, sub)),
             _ => false,
         },
         GTy::Named(name) => match (*name, v) {
             (_, Val::Null) => true,
             ("Int" | "String" | "ID" | "Boolean" | "Float", Val::Scalar(k)) => k == name,
             ("Int" | "String" | "ID" | "Boolean" | "Float", _) => false,
-            (composite, v) => possible_types(composite).into_iter().any(|c| conf_obj(op, v, c, sub, vars)),
+            (composite, v) => possible_types(composite).into_iter().any(|c| conf_obj(op, v, c, sub)),
         },
     }
 }
@@ -587,6 +587,10 @@ fn operations(thorough: bool) -> Vec<(String, Op)> {
     add("variable on an inline fragment and on a spread", vec!["a", "b"], vec![fs("user", vec![f("id"), with(Sel::Inline { cond: None, dirs: Dirs::default(), sel: vec![f("name")] }, incl(a())), with(Sel::Spread { name: "F", dirs: Dirs::default() }, skip(b()))])], vec![("F", "User", vec![fs("posts", vec![f("id")])])]);
     add("the same fragment spread twice under different variables", vec!["a", "b"], vec![fs("user", vec![with(Sel::Spread { name: "F", dirs: Dirs::default() }, skip(a())), with(Sel::Spread { name: "F", dirs: Dirs::default() }, incl(b()))])], vec![("F", "User", vec![f("id")])]);
     add("variable in nested levels", vec!["a", "b"], vec![fs("user", vec![with(f("id"), skip(a())), fs("friend", vec![with(f("name"), incl(b())), f("id")])])], vec![]);
+    add("variable directives inside a named fragment", vec!["a"], vec![fs("user", vec![f("id"), Sel::Spread { name: "F", dirs: Dirs::default() }])], vec![("F", "User", vec![f("name"), with(fs("friend", vec![f("id")]), skip(a()))])]);
+    add("include variable inside a named fragment spread twice", vec!["a"], vec![fs("user", vec![Sel::Spread { name: "F", dirs: Dirs::default() }]), fs("users", vec![Sel::Spread { name: "F", dirs: Dirs::default() }])], vec![("F", "User", vec![f("id"), with(f("name"), incl(a()))])]);
+    add("variables inside nested named fragments and on the spread", vec!["a", "b"], vec![fs("user", vec![with(Sel::Spread { name: "A", dirs: Dirs::default() }, incl(b()))])], vec![("A", "User", vec![f("id"), Sel::Spread { name: "B", dirs: Dirs::default() }]), ("B", "User", vec![with(f("name"), skip(a()))])]);
+    add("variable inside a fragment on an abstract type", vec!["a"], vec![fs("node", vec![Sel::Spread { name: "N", dirs: Dirs::default() }])], vec![("N", "Node", vec![f("id"), with(on("Post", vec![f("title")]), skip(a()))])]);
     // abstract types
     add("union with inline fragments", vec![], vec![fs("thing", vec![f("__typename"), on("User", vec![f("name")]), on("Post", vec![f("title")])])], vec![]);
     add("union list, one branch only", vec![], vec![fs("things", vec![on("User", vec![f("id")])])], vec![]);
